@@ -447,15 +447,18 @@ Fixpoint aexec (nm : option var) (s : stmt) (pt : apoint) {struct s} : list (apo
   | SUnknown _ => [(aemit EvMisuse pt, SgStuck)]
   end.
 
-(* deferred closures, LIFO; a stuck closure poisons the point (phase PBad) *)
-Definition astep_defer (s : stmt) (pts : list apoint) : list apoint :=
-  nodup apoint_eq_dec
-    (flat_map (fun pt => map (fun r => match snd r with SgStuck => aemit EvMisuse (fst r) | _ => fst r end)
-                             (aexec None s pt)) pts).
-Fixpoint arun_defers (defers : list stmt) (ds : list nat) (pts : list apoint) : list apoint :=
+(* deferred closures, LIFO; None when a closure gets stuck *)
+Definition is_stuck (r : apoint * sig) : bool := match snd r with SgStuck => true | _ => false end.
+Definition astep_defer (s : stmt) (pts : list apoint) : option (list apoint) :=
+  let rs := flat_map (aexec None s) pts in
+  if existsb is_stuck rs then None else Some (nodup apoint_eq_dec (map fst rs)).
+Fixpoint arun_defers (defers : list stmt) (ds : list nat) (pts : list apoint) : option (list apoint) :=
   match ds with
-  | [] => pts
-  | d :: ds' => arun_defers defers ds' (astep_defer (nth d defers SSkip) pts)
+  | [] => Some pts
+  | d :: ds' => match astep_defer (nth d defers SSkip) pts with
+                | Some pts' => arun_defers defers ds' pts'
+                | None => None
+                end
   end.
 End AExec.
 
@@ -466,8 +469,10 @@ Definition afinal_ok (named : option var) (x : errval) (pt : apoint) : bool :=
 
 Definition check_result (p : prog) (fuel : nat) (r : apoint * sig) : bool :=
   match snd r with
-  | SgRet x => forallb (afinal_ok (p_named p) x)
-                 (arun_defers (p_ctxrb p) (p_sticky p) fuel (p_defers p) (a_defers (fst r)) [anodefers (fst r)])
+  | SgRet x => match arun_defers (p_ctxrb p) (p_sticky p) fuel (p_defers p) (a_defers (fst r)) [anodefers (fst r)] with
+               | Some pts => forallb (afinal_ok (p_named p) x) pts
+               | None => false
+               end
   | SgNormal | SgBreak | SgCont | SgStuck => false
   end.
 
